@@ -88,8 +88,12 @@ func (o *objectGoMapSimple) defineOwnPropertyStr(name unistring.String, descr Pr
 	}
 
 	n := name.String()
-	if o.extensible || o._hasStr(n) {
-		o.data[n] = descr.Value.Export()
+	if has := o._hasStr(n); o.extensible || has {
+		if descr.Value != nil {
+			o.data[n] = descr.Value.Export()
+		} else if !has {
+			o.data[n] = nil
+		}
 		return true
 	}
 
